@@ -101,13 +101,26 @@ def run_facts(cfg):
 # lean
 
 def lean_sources(cfg):
-    files = []
-    for root in (os.path.join(LEAN, "EgVerif"), os.path.join(LEAN, "Driver")):
-        for d, _, fs in os.walk(root):
-            for f in fs:
-                if f.endswith(".lean"):
-                    files.append(os.path.join(d, f))
-    return sorted(files)
+    """The Lean sources this property depends on: the import closure (inside the project) of its
+    Props module and of its judge, so that another property's work in progress cannot disturb it."""
+    roots = [cfg["props_module"], "Driver." + cfg["id"]]
+    seen, todo = set(), list(roots)
+    while todo:
+        m = todo.pop()
+        if m in seen:
+            continue
+        p = module_path(m)
+        if not os.path.exists(p):
+            continue
+        seen.add(m)
+        try:
+            txt = open(p).read()
+        except OSError:
+            continue
+        for im in re.findall(r"^\s*(?:public\s+)?import\s+(?:all\s+)?([A-Za-z0-9_.]+)", txt, re.M):
+            if im.startswith("EgVerif.") or im.startswith("Driver."):
+                todo.append(im)
+    return sorted(module_path(m) for m in seen)
 
 
 def strip_comments(text):
@@ -383,6 +396,11 @@ class Check:
 
     # ---- proof side
     def proofs(self):
+        # one proof phase per property at a time (the generated facts live inside the Lean project)
+        with Lock("proof_" + self.pid):
+            self._proofs()
+
+    def _proofs(self):
         cfg = self.cfg
         ok, out = run_facts(cfg)
         if not ok:
